@@ -286,6 +286,17 @@ func customFunctions() []gojq.CompilerOption {
 			return gojq.NewIter(vs...)
 		}),
 		gojq.WithFunction("ferr", 0, 0, func(v any, _ []any) any { return errors.New("function error") }),
+		// callbacks with deadlines of their own: their errors are (or wrap) context errors although the
+		// run's context is alive; they are ordinary, catchable errors of the query
+		gojq.WithFunction("fctx", 0, 0, func(v any, _ []any) any { return fmt.Errorf("callback deadline: %w", context.DeadlineExceeded) }),
+		gojq.WithFunction("fcanc", 0, 0, func(v any, _ []any) any { return context.Canceled }),
+		gojq.WithIterFunction("itctxe", 0, 0, func(v any, _ []any) gojq.Iter {
+			return gojq.NewIter[any](fmt.Errorf("iterator gave up: %w", context.Canceled))
+		}),
+		gojq.WithIterFunction("itctx", 0, 0, func(v any, _ []any) gojq.Iter {
+			return gojq.NewIter[any](v, fmt.Errorf("iterator deadline: %w", context.DeadlineExceeded), v)
+		}),
+		gojq.WithFunction("fverr", 0, 0, func(v any, _ []any) any { return valueError{map[string]any{"code": 7, "in": v}} }),
 		gojq.WithFunction("fid", 0, 1, func(v any, _ []any) any { return v }),
 	}
 }
@@ -299,6 +310,27 @@ var iterProgs = []string{
 	`.[iterr]?`, `"\(iterr)"`, `itve | tostring`, `[itve]`, `[itve?]`, `itve?`, `try itve catch "c"`, `itn(0)`, `itn(1)`, `[itn(4)] | length`, `itn(3) | iterr`, `itn(2) | itve`, `isempty(iterr)`, `isempty(it0)`, `any(itve; true)`,
 	`ferr | tostring`, `{a: ferr}`, `[ferr]`, `ferr?`, `try ferr catch .`, `1, ferr, 2`, `.[] | ferr`, `it1 | ferr`, `itve | ferr`, `ferr, iterr`, `iterr, ferr, it1`, `(iterr, ferr)?`, `repeat(it1)`, `repeat(itve)?`, `recurse(it0)`, `[limit(5; repeat(it2))]`,
 	`.[] |= it1`, `.[] |= it0`, `.[] |= iterr`, `del(it0)`, `path(.[] | it1)`, `to_entries | map(it1)`, `map(itve)?`, `map(it0)`, `with_entries(it1)`, `sort_by(it1)`, `group_by(it2)?`, `walk(it1)`, `limit(3; it2, itve, it1)`, `first(it0, it1)`, `[first(it2), last(it2)]`,
+}
+
+type valueError struct{ v any }
+
+func (e valueError) Error() string { return "callback error with a value" }
+func (e valueError) Value() any    { return e.v }
+
+func init() {
+	// the same calling contexts with the callbacks whose errors look like cancellations
+	seen := map[string]bool{}
+	for _, p := range iterProgs {
+		seen[p] = true
+	}
+	for _, p := range append([]string{}, iterProgs...) {
+		for _, sub := range [][2]string{{"ferr", "fctx"}, {"ferr", "fcanc"}, {"ferr", "fverr"}, {"iterr", "itctxe"}, {"itve", "itctx"}} {
+			if q := strings.ReplaceAll(p, sub[0], sub[1]); q != p && !seen[q] {
+				seen[q] = true
+				iterProgs = append(iterProgs, q)
+			}
+		}
+	}
 }
 
 func (w *world) options(d *Data) []gojq.CompilerOption {
